@@ -8,6 +8,11 @@ print("passes without and with the change and the repository suite is unchanged 
 print("checks that exited 1 against a scratch copy with the change (selftest.sh); `checks ok` = checks that exited 0.\n")
 print("`re-check` = the checks that gained assertions after that round (rounds 3-4 feedback), run again with the")
 print("final harness (selftest-recheck.txt): checks ok / alarms.\n")
+print("Second round (`B1?b-N`, eight sub-agents, two changes each): run while the harness was being extended, so a few")
+print("checks ran with an intermediate harness state (a harness-internal error in the new C10 sub-check, the C03 oracle's")
+print("serde_json nesting limit O14, 257/300-level documents reaching the known F20-u8-depth defect through C14); those")
+print("checks were run again with the final harness (`re-check` column). Changes whose `checks ok` is below 20 and whose")
+print("selftest.txt starts with `## subset` were run against the checks closest to the changed code only.\n")
 print("| change | focus | kind | what it does | observable difference | confirmed | checks ok | alarms | re-check |")
 print("|---|---|---|---|---|---|---|---|---|")
 for d in sorted(glob.glob('/verif/benign/B*-*')):
@@ -25,4 +30,5 @@ for d in sorted(glob.glob('/verif/benign/B*-*')):
     ra = ' '.join(sum((x.split() for x in re.findall(r'CAUGHT-BY:(.*)', rc)), [])) or 'none'
     rn = len(re.findall(r'^C\d\d rc=0', rc, re.M)); rt = len(re.findall(r'^C\d\d rc=', rc, re.M))
     recheck = ('%d/%d ok, alarms: %s' % (rn, rt, ra)) if rc else '-'
-    print('| %s | %s | %s | %s | %s | %s | %d/20 | %s | %s |' % (name, am.get('focus', ''), am.get('kind', ''), cl(am.get('summary', ''))[:220], cl(am.get('observable_difference', ''))[:160], 'yes' if ok else 'NO', n0, alarms, recheck))
+    nt = len(re.findall(r'^C\d\d rc=', st, re.M))
+    print('| %s | %s | %s | %s | %s | %s | %d/%d | %s | %s |' % (name, am.get('focus', ''), am.get('kind', ''), cl(am.get('summary', ''))[:220], cl(am.get('observable_difference', ''))[:160], 'yes' if ok else 'NO', n0, nt, alarms, recheck))
